@@ -179,6 +179,63 @@ def run(pid, tier, seed):
             elif proto.get(b[9], "basis") in (None, ["none"]) or proto.get(b[8], "rv") != ["0"]:
                 rep.violation("basis unusable in later calls after mpq_QSwrite_basis(p, NULL, f)", {"lp": lp.line()},
                               signature={"symptom": "own-basis-later"})
+    # ---- (i) a basis loaded over the solver's own one is the problem's basis: that is what "write own" must write and keep;
+    #      (ii) a round trip on a problem from which a non-last column was deleted (names and indices no longer line up with
+    #      the order in which the names were registered)
+    r2 = rng.fork("loaded")
+    jobs2 = []
+    for lp in fam:
+        nc, nr = len(lp.cols), len(lp.rows)
+        if nc < 2 or nr < 1:
+            continue
+        # a valid basis different from the optimal one: the slack basis
+        cs0 = "".join("3" if (c[1] == NINF and c[2] == INF) else ("0" if c[1] != NINF else "2") for c in lp.cols)
+        f = hx("l.bas")
+        jobs2.append(("loaded", lp, ["new 0 " + lp.line(), "solve 0 dual", "loadbasis 0 %s %s" % (cs0, "1" * nr), "getbasis 0",
+                                      "writebasis 0 own " + f, "getbasis 0", "readbasis 0 " + f]))
+        j = r2.below(nc - 1)
+        jobs2.append(("deleted-column", lp, ["new 0 " + lp.line(), "delcol 0 %d" % j, "solve 0 dual", "getbasis 0", "writebasis 0 own " + f,
+                                              "readbasis 0 " + f, "loadbasis 0 %s %s" % (cs0[:j] + cs0[j + 1:], "1" * nr), "getbasis 0",
+                                              "writebasis 0 own " + f, "readbasis 0 " + f]))
+    from concurrent.futures import ThreadPoolExecutor
+    with ThreadPoolExecutor(build.NCPU) as ex:
+        trs2 = list(ex.map(lambda j: proto.run_harness(exe, j[2], timeout=300), jobs2))
+    def norm_free(b, lp, drop=None):
+        # the reader turns non-basic at-lower free columns into "free" (3): compare up to that documented normalisation
+        if not b or b == ["none"]:
+            return b
+        cols = [c for k, c in enumerate(lp.cols) if k != drop]
+        cs = "".join("3" if (ch in "03" and cols[k][1] == NINF and cols[k][2] == INF) else ch for k, ch in enumerate(b[0] if b[0] != "-" else ""))
+        return [cs or "-", b[1]]
+    for (kind, lp, lines), tr in zip(jobs2, trs2):
+        ctx = {"lp": lp.line(), "lines": lines}
+        ev.stat("own-basis:" + kind)
+        ev.count(kind + "|" + lp.line())
+        if tr.crashed:
+            rep.violation("crash in a load / write-own / read-back sequence: " + tr.crashed[-300:], ctx, signature={"symptom": "own-basis-crash", "kind": kind})
+            continue
+        blocks = [b for _, b in tr]
+        if kind == "loaded":
+            if proto.get(blocks[2], "rc") != ["0"]:
+                continue
+            loaded, after, back = proto.get(blocks[3], "basis"), proto.get(blocks[5], "basis"), proto.get(blocks[6], "basis")
+            if proto.get(blocks[4], "rv") != ["0"]:
+                rep.violation("mpq_QSwrite_basis(p, NULL, f) fails after mpq_QSload_basis", ctx, signature={"symptom": "own-write-fails", "kind": kind})
+            elif after != loaded:
+                rep.violation("writing the problem's own basis replaced the loaded basis %s by %s" % (loaded, after), ctx, signature={"symptom": "own-basis-consumed", "kind": kind})
+            elif norm_free(back, lp) != norm_free(loaded, lp):
+                rep.violation("the file written for the problem's own (loaded) basis %s reads back as %s" % (loaded, back), ctx, signature={"symptom": "roundtrip", "kind": kind})
+        else:
+            drop = int(lines[1].split()[2])
+            for wi, gi, ri in ((4, 3, 5), (8, 7, 9)):
+                if len(blocks) <= ri:
+                    break
+                cur, back = proto.get(blocks[gi], "basis"), proto.get(blocks[ri], "basis")
+                if cur in (None, ["none"]) or proto.get(blocks[wi], "rv") != ["0"]:
+                    continue
+                if norm_free(back, lp, drop) != norm_free(cur, lp, drop):
+                    rep.violation("after deleting column %d the basis %s reads back from its file as %s" % (drop, cur, back), ctx, signature={"symptom": "roundtrip", "kind": kind})
+                    break
     for thm, why in pr["failed"]:
         rep.violation("proof obligation no longer checks: %s (%s)" % (thm, why), {"theorem": thm, "why": why, "log": pr["log"][-2000:]},
                       signature={"symptom": "proof", "theorem": thm}, found_input=False)
